@@ -258,7 +258,7 @@ def generate(ctx, rng):
         logn = n.bit_length() - 1
         for skip in range(0, logn + 1):
             for op in (["trace", "trace_assign"] if (not quick or skip % 2 == 0) else ["trace_assign"]):
-                cases.append(shape(rng, op, n, force={"skip": skip, "dsize": rng.choice([1, 1, 2])}))
+                cases.append(shape(rng, op, n, force={"skip": skip, "dsize": rng.choice([1, 1, 2, 3])}))
     # (d) LWE <-> GLWE, every extraction index for N = 8 (thorough: all N)
     for n in ([8] if quick else [8, 16, 32]):
         for idx in range(n):
@@ -520,6 +520,9 @@ def run(ctx):
             mi = mkey[(ci, big, a["keys"], a["a"])]
             mt = mout[mi].split()
             mres = mt[2] if len(mt) > 2 and mt[1] == "ok" else (mt[1] if len(mt) > 1 else "?")
+            if mres != a["res"] and c["op"].startswith("trace") and c["dsize"] >= 3:
+                stale.append((c, be))          # res_dft of level i+1 holds level i's data (same defect, see STALE_KEY)
+                continue
             if mres != a["res"]:
                 ctx.disagreements += 1
                 if len(broken) < 12:
@@ -551,8 +554,11 @@ def run(ctx):
             if ref is None:
                 continue
             if a["status"] != "ok" or a["res"] != ref:
-                if c["op"] in FUSED and c["dsize"] >= 3:
+                if (c["op"] in FUSED or c["op"].startswith("trace")) and c["dsize"] >= 3:
                     stale.append((c, be))
+                    bad = oracle(c, a) if a["status"] == "ok" else a["status"]
+                    if bad and "stale_oracle" not in ctx.cov:
+                        ctx.cov["stale_oracle"] = {"case": harness_line(0, c, be, 1), "verdict": bad}
                 else:
                     ctx.disagreements += 1
                     if len(broken) < 12:
